@@ -4,7 +4,7 @@ From Coq Require Import List Bool String Ascii ZArith NArith QArith Arith Lia.
 Import ListNotations.
 From DA Require Import Base.PyRT Base.Val Model.Sem Model.Equiv Proofs.EquivP1 Proofs.EquivP2 Proofs.EquivP5 Proofs.EquivP6.
 From DA Require Import Model.PyExpr Model.ExprPrint Model.ExprParse Model.ExprRoundtrip Model.PipePrintStr Model.PipePrintSyn Model.PipePrint.
-From DA Require Import Proofs.ExprParseP14 Proofs.ExprParseP21 Proofs.PipePrintP1 Proofs.PipePrintP3 Proofs.PipePrintP4 Proofs.PipePrintP5
+From DA Require Import Proofs.ExprParseP14 Proofs.PipePrintP1 Proofs.PipePrintP3 Proofs.PipePrintP4 Proofs.PipePrintP5
   Proofs.PipePrintP6 Proofs.PipePrintP7 Proofs.PipePrintP8.
 Local Close Scope Q_scope.
 Local Open Scope string_scope.
@@ -22,9 +22,9 @@ Proof. apply lexg_expr_text. Qed.
 Theorem print_rebuild_expr (F : ffmt) (np : N -> bool) (c : cfg) (dd : list string) (e : expr) :
   printable c dd e = true -> is_term e = true -> lexable e = true -> (forall m, In m (floats_of e) -> float_lex_ok F m) ->
   exists text, py_unquote (py_repr np (expr_text F np e)) = Some text /\ text = expr_text F np e
-               /\ parse_text F c dd text = Ok e /\ PyExpr.is_equal e e = true.
+               /\ parse_text F c dd text = Ok e.
 Proof. intros P T L Fl. exists (expr_text F np e). split; [apply py_unquote_repr|]. split; [reflexivity|].
-  unfold parse_text. rewrite (lexg_expr_text F np e L Fl). exact (printable_roundtrip_eq c dd e P T). Qed.
+  unfold parse_text. rewrite (lexg_expr_text F np e L Fl). exact (printable_roundtrip c dd e P T). Qed.
 
 (* ------------------------------------------------------------------ pipelines *)
 Theorem print_rebuild_op (E : penv) (p : eop) : normal E p = true -> floats_ok_op E p ->
@@ -122,16 +122,9 @@ Lemma refuted_column_name :
              /\ wfb w_col = true /\ subset (ops_cols [("z", POp "+" true false [PCol "my col"; PVal (KInt 1)])]) ["x"; "my col"] = true.
 Proof. eexists. split; [vm_compute; reflexivity|]. repeat split; vm_compute; reflexivity. Qed.
 
-(* (3) expressions: an infinite constant prints as the NAME inf; -0.0 as the base of ** prints without parentheses *)
+(* (3) expressions: an infinite constant (built from term objects) prints as the NAME inf *)
 Definition w_inf : expr := EOp "+" true false None [ECol "x"; EVal (PInf false)].
 Lemma refuted_expr_infinity :
   exists text, py_unquote (py_repr (fun _ => false) (expr_text F0 (fun _ => false) w_inf)) = Some text
                /\ parse_text F0 (e_cfg E0) ["x"] text = Err /\ printable (e_cfg E0) ["x"] w_inf = false.
 Proof. eexists. split; [vm_compute; reflexivity|]. split; vm_compute; reflexivity. Qed.
-Definition w_negzero : expr := EOp "**" true false None [EVal (PFloat true 0); ECol "x"].
-Definition w_negzero' : expr := EOp "-" true false None [EOp "**" true false None [EVal (PFloat false 0); ECol "x"]].
-Lemma refuted_expr_negative_zero :
-  exists text, py_unquote (py_repr (fun _ => false) (expr_text F0 (fun _ => false) w_negzero)) = Some text
-               /\ parse_text F0 (e_cfg E0) ["x"] text = Ok w_negzero' /\ PyExpr.is_equal w_negzero w_negzero' = false
-               /\ printable (e_cfg E0) ["x"] w_negzero = false.
-Proof. eexists. split; [vm_compute; reflexivity|]. repeat split; vm_compute; reflexivity. Qed.
